@@ -732,6 +732,7 @@ def build(ctx):
     worker_job_billing(ctx)
     ctx.witness_search = lambda: core.run_native(open(os.path.join(os.path.dirname(__file__), 'native', 'c13_replay.py')).read(), {})
     ctx.assume('resource quantities are Python ints (unbounded); constructor arguments of int type are non-negative (disk sizes, accelerator counts)')
+    ctx.assume('<cloud>_cores_mcpu_to_memory_bytes and the worker data-disk share in Job.__init__: float operations are exact real operations (mcpu / 1000 is a dyadic rational for the quarter-core multiples the front end admits, products stay below 2**53); the per-core MiB lookup is an uninterpreted positive function of the worker type (its real table values are enumerated from the source); PoolConfig.convert_requests_to_resources sees its helpers as uninterpreted functions')
 
 
 ICC = 'batch/batch/inst_coll_config.py'
